@@ -35,6 +35,8 @@ Definition E_ParameterError : exc := Refused 15.
 Definition E_IssuerNotFound : exc := Refused 16.
 Definition E_ResponseError : exc := Refused 17.
 Definition E_OidcServiceError : exc := Refused 18.
+Definition E_HeaderError : exc := Refused 19.
+Definition E_NoSuitableDecryptionKey : exc := Refused 20.
 
 Notation dict := (list (pystr * pyval)).
 
@@ -207,12 +209,18 @@ Definition kty_eqb (a b : kty) : bool :=
 Record jar_entry := mkJE { je_owner : pystr; je_kty : kty; je_kid : pystr; je_key : nat }.
 Notation jar := (list jar_entry).
 
+(* an optional JWE around the JWS (nested JWT): header alg and enc, and the key the content was encrypted
+   to (None = bytes that decrypt under no key).  Symbolically decryption is the identity: AEnc under w_key. *)
+Record jwe_wrap := mkJwe { w_alg : pystr; w_enc : pystr; w_key : option nat }.
+
 Record token := mkTok {
-  t_alg : pystr;                 (* header alg *)
+  t_alg : pystr;                 (* header alg of the JWS *)
   t_kid : option pystr;          (* header kid *)
   t_signer : option nat;         (* key number that produced the signature over this header and payload *)
-  t_claims : dict                (* JSON payload *)
+  t_claims : dict;               (* JSON payload *)
+  t_wrap : option jwe_wrap       (* delivered as a JWE around the JWS? *)
 }.
+Definition unwrap (t : token) : token := mkTok (t_alg t) (t_kid t) (t_signer t) (t_claims t) None.
 
 (* cryptojwt: SIGNER_ALGS membership (jws.factory returns None for any other alg: "not a signed JWT") and
    jws.utils.alg2keytype.  The EC/OKP variants that are not generated are outside the fragment. *)
@@ -236,8 +244,14 @@ Record kwargs := mkKw {
   kw_storage : option Z;
   kw_allow_missing_kid : bool;
   kw_nonce : option pystr;
-  kw_jar : jar
+  kw_jar : jar;
+  kw_encalg : option pystr;      (* expected JWE alg (id_token_encrypted_response_alg) *)
+  kw_encenc : option pystr;      (* expected JWE enc *)
+  kw_dec : list nat              (* this client's own RSA decryption keys: keyjar.get_decrypt_key(owner="") *)
 }.
+Definition kw_plain (kw : kwargs) : kwargs :=
+  mkKw (kw_iss kw) (kw_client_id kw) (kw_sigalg kw) (kw_allowed_sign_alg kw) (kw_allow_none kw) (kw_skew kw)
+       (kw_storage kw) (kw_allow_missing_kid kw) (kw_nonce kw) (kw_jar kw) None None (kw_dec kw).
 
 Definition kid_eff (t : token) : option pystr :=
   match t_kid t with Some [] => None | k => k end.
@@ -384,6 +398,40 @@ Definition issuer_known (kw : kwargs) (t : token) : res unit :=
   | Some _ => Err ValueError
   end.
 
+(* verify_id_token's own look inside an encrypted ID Token: jwe.factory(token) and decrypt with the client's
+   decryption keys.  RSA key-transport algorithms only; anything else is outside the fragment. *)
+Definition jwe_alg_modelled (a : pystr) : bool :=
+  str_eqb a (PS "RSA-OAEP") || str_eqb a (PS "RSA-OAEP-256") || str_eqb a (PS "RSA1_5").
+Definition jwe_enc_modelled (e : pystr) : bool :=
+  str_eqb e (PS "A128CBC-HS256") || str_eqb e (PS "A192CBC-HS384") || str_eqb e (PS "A256CBC-HS512")
+  || str_eqb e (PS "A128GCM") || str_eqb e (PS "A192GCM") || str_eqb e (PS "A256GCM").
+Definition decrypt_stage (kw : kwargs) (t : token) : res unit :=
+  match t_wrap t with
+  | None => Ok tt
+  | Some w =>
+      if negb (jwe_alg_modelled (w_alg w) && jwe_enc_modelled (w_enc w)) then Unmodelled else
+      match kw_dec kw with
+      | [] => Err E_NoSuitableDecryptionKey
+      | ks => match w_key w with
+              | Some k => if existsb (Nat.eqb k) ks then Ok tt else Err ValueError
+              | None => Err ValueError
+              end
+      end
+  end.
+
+(* Message.from_jwt: jwe.factory(txt, alg=encalg, enc=encenc) compares the header of what was delivered
+   (the JWE header, or the header of a plain JWS, which has no enc) with the expected values *)
+Definition header_expect (expected : option pystr) (actual : option pystr) : res unit :=
+  match expected, actual with
+  | Some (x :: e), Some a => if str_eqb (x :: e) a then Ok tt else Err E_HeaderError
+  | _, _ => Ok tt
+  end.
+Definition enc_expectation (kw : kwargs) (t : token) : res unit :=
+  match t_wrap t with
+  | None => header_expect (kw_encalg kw) (Some (t_alg t))
+  | Some w => _ <- header_expect (kw_encalg kw) (Some (w_alg w)) ;; header_expect (kw_encenc kw) (Some (w_enc w))
+  end.
+
 Definition unmodelled_claims (d : dict) : res unit :=
   if has_key (PS "error_description") d || has_key (PS "birthdate") d then Unmodelled else Ok tt.
 
@@ -410,9 +458,11 @@ Section WithHash.
   (* verify_id_token(msg, check_hash, kwargs): returns the verified, typed claims *)
   Definition verify_id_token (kw : kwargs) (check_hash : bool) (code atok : option pystr) (t : token) (now : Z)
     : res dict :=
+    _ <- decrypt_stage kw t ;;
     _ <- jws_gate (t_alg t) ;;
     signed <- alg_policy kw (t_alg t) ;;
     _ <- (if signed : bool then issuer_known kw t else Ok tt) ;;
+    _ <- enc_expectation kw t ;;
     _ <- (if signed : bool then sig_accepted kw t else Ok tt) ;;
     d <- from_dict idtoken_params (t_claims t) [] ;;
     _ <- check_required idtoken_params d ;;
